@@ -434,6 +434,7 @@ pub fn run(args: Args) -> ! {
 
 fn any_ambiguous(t: &Tbl) -> bool {
     t.order_ambiguous
+        || !t.floating.is_empty()
         || t.entries.iter().any(|(_, n)| match n {
             Node::Table(s) => any_ambiguous(s),
             Node::Aot(a) => a.iter().any(any_ambiguous),
